@@ -11,6 +11,8 @@
 use std::collections::HashMap;
 
 use crate::Orientation;
+#[cfg(cteenergymodel_verif)]
+use crate::verif_trace::TracedLock;
 
 mod climatezone;
 mod hourlyraddata;
